@@ -467,6 +467,32 @@ def model_checks(chk, tier):
                 raise tlc.MachineryError("Hist.tla violates its invariants: " + str(r.violated))
 
 
+def apalache_lru(chk):
+    """thorough tier: the inductive invariant of the LRU model (spec/LruInd.tla) discharged by Apalache - bounded size and
+    no key twice for EVERY cache content of up to 5 keys, reachable or not; a tool failure is noted, a counterexample is a
+    machinery failure (the design model would be wrong)"""
+    import subprocess
+    import time
+    scratch = tempfile.mkdtemp(prefix="verif_apa.")
+    try:
+        shutil.copy(os.path.join(common.ROOT, "spec", "apalache", "LruInd.tla"), scratch)
+        t0 = time.time()
+        outcome = []
+        for args in (["--init=Init", "--length=0"], ["--init=IndInit", "--length=1"]):
+            try:
+                r = subprocess.run(["apalache-mc", "check", "--cinit=CInit", "--inv=IndInv", f"--out-dir={scratch}/out"] + args + ["LruInd.tla"], cwd=scratch, capture_output=True, text=True, timeout=1800)
+            except Exception as ex:
+                chk.extra["apalache_lru_inductive"] = f"not run: {type(ex).__name__}"
+                return
+            ok = "EXITCODE: OK" in r.stdout
+            outcome.append(ok)
+            if not ok and "violat" in r.stdout.lower():
+                raise tlc.MachineryError("Apalache refutes the inductive invariant of spec/LruInd.tla:\n" + r.stdout[-1500:])
+        chk.extra["apalache_lru_inductive"] = {"init_implies_inv": outcome[0], "inv_is_inductive": outcome[1], "wall_s": round(time.time() - t0, 1)}
+    finally:
+        shutil.rmtree(scratch, ignore_errors=True)
+
+
 def gen_histories(chk, n, steps, seed):
     cfg = tlc.cfg(spec="Spec", constants={"Cap": 10, "MaxVer": 4, "MaxSteps": steps, "KeyComplete": "TRUE", "NameCoversData": "TRUE", "CleanFailure": "TRUE"}, defs=HIST_DEFS,
                   invariants=["Transparent", "EmitHist"])
@@ -504,6 +530,8 @@ def run(tier="quick", seed=0, replay_path=None):
     t = TIERS[tier]
     rnd = random.Random(seed)
     model_checks(chk, tier)
+    if tier == "thorough":
+        apalache_lru(chk)
     scratch = tempfile.mkdtemp(prefix="verif_c15.")
     try:
         if replay_path:
